@@ -6,7 +6,6 @@ use gc_arena::arena::CollectionPhase;
 use gc_arena::metrics::Metrics;
 
 use crate::heap::{AnyArena, Handle};
-use crate::lang::*;
 use crate::model::*;
 use crate::obs::{self, Ctx, Ev};
 
@@ -78,6 +77,68 @@ pub struct Cov {
     pub c09_multi_call_cycles: u32,
     pub c09_sleep_crossed: u32,
     pub convert_ops: u32,
+}
+
+
+impl Cov {
+    pub fn merge(&mut self, o: &Cov) {
+        macro_rules! add {
+            ($($f:ident),*) => { $( self.$f += o.$f; )* };
+        }
+        add!(
+            steps, ops, ops_skipped, allocs, adoptions, cycles_completed, collect_calls, work_units, settles, settle_nontrivial,
+            garbage_cycle_at_settle, weak_queries, weak_q_sweeping_weakonly, upgrade_store_active, upgrade_none_live,
+            callbacks_with_debt_active_temps, arena_drop_with_shell, faults_trace, faults_callback, faults_ctor, used_after_fault,
+            finalize_calls, finalize_after_mutation, resurrect_dead_with_child, resurrect_calls, stash_active, slot_reuse_live,
+            foreign_fetch, other_arena_active, barrier_black_nontracing, barrier_black_tracing, taint_skips, c09_tracked_cycles,
+            c09_bound_checks, c09_sleep_checks, c09_multi_call_cycles, c09_sleep_crossed, convert_ops
+        );
+        for i in 0..4 {
+            self.adopt_active[i] += o.adopt_active[i];
+            self.phase_seen[i] += o.phase_seen[i];
+            self.arena_drop_phase[i] += o.arena_drop_phase[i];
+        }
+        self.cycle_completed_after_active_adopt |= o.cycle_completed_after_active_adopt;
+        for (k, v) in &o.cells {
+            *self.cells.entry(*k).or_insert(0) += v;
+        }
+        for (k, v) in &o.c08 {
+            *self.c08.entry(*k).or_insert(0) += v;
+        }
+        for (k, v) in &o.weak_cells {
+            *self.weak_cells.entry(*k).or_insert(0) += v;
+        }
+        for (k, v) in &o.fault_cells {
+            *self.fault_cells.entry(*k).or_insert(0) += v;
+        }
+    }
+
+    pub fn to_json(&self) -> serde_json::Value {
+        let cells: Vec<String> = self.cells.iter().map(|(k, v)| format!("path{}:phase{}:parent{}:child{}={}", k.0, k.1, k.2, k.3, v)).collect();
+        let c08: Vec<String> = self.c08.iter().map(|(k, v)| format!("phase{}:api{}:debt{}={}", k.0, k.1, k.2, v)).collect();
+        let weak: Vec<String> = self.weak_cells.iter().map(|(k, v)| format!("query{}:phase{}:target{}={}", k.0, k.1, k.2, v)).collect();
+        let faults: Vec<String> = self.fault_cells.iter().map(|(k, v)| format!("fault{}:phase{}={}", k.0, k.1, v)).collect();
+        serde_json::json!({
+            "steps": self.steps, "ops": self.ops, "ops_skipped_or_degraded": self.ops_skipped, "allocations": self.allocs,
+            "adoptions": self.adoptions, "adoptions_by_phase_S_Mk_Md_Sw": self.adopt_active, "cycles_completed": self.cycles_completed,
+            "collection_calls": self.collect_calls, "single_unit_increments": self.work_units, "calls_by_phase_S_Mk_Md_Sw": self.phase_seen,
+            "settles": self.settles, "settles_nontrivial": self.settle_nontrivial, "garbage_cycle_members_at_settle": self.garbage_cycle_at_settle,
+            "weak_queries": self.weak_queries, "weak_queries_sweeping_weak_only": self.weak_q_sweeping_weakonly,
+            "upgrade_and_store_while_active": self.upgrade_store_active, "upgrade_refused_live_weak_only_sweeping": self.upgrade_none_live,
+            "callbacks_with_debt_active_phase_and_temps": self.callbacks_with_debt_active_temps,
+            "arena_drops_by_phase_S_Mk_Md_Sw": self.arena_drop_phase, "arena_drops_with_shell": self.arena_drop_with_shell,
+            "faults_trace": self.faults_trace, "faults_callback": self.faults_callback, "faults_ctor_or_map_root": self.faults_ctor,
+            "steps_after_a_fault": self.used_after_fault, "finalize_calls": self.finalize_calls, "finalize_after_mutation": self.finalize_after_mutation,
+            "resurrect_calls": self.resurrect_calls, "resurrect_dead_with_child": self.resurrect_dead_with_child,
+            "stash_while_active": self.stash_active, "slot_reuse_with_live_handle": self.slot_reuse_live, "foreign_fetches": self.foreign_fetch,
+            "steps_with_other_arena_active": self.other_arena_active,
+            "barrier_on_black_tracing": self.barrier_black_tracing, "barrier_on_black_nontracing": self.barrier_black_nontracing,
+            "c09_tracked_cycles": self.c09_tracked_cycles, "c09_bound_checks": self.c09_bound_checks, "c09_sleep_checks": self.c09_sleep_checks,
+            "c09_cycles_with_3plus_calls": self.c09_multi_call_cycles, "c09_sleep_allowance_crossed": self.c09_sleep_crossed,
+            "conversion_ops": self.convert_ops,
+            "adoption_cells": cells, "c08_triples": c08, "weak_cells": weak, "fault_cells": faults,
+        })
+    }
 }
 
 pub fn phase_ix(p: CollectionPhase) -> u8 {
